@@ -89,10 +89,21 @@ class C02(PropBase):
             run.generate(WEIGHTS[cfg["focus"]], cfg["n_steps"], cfg["p_check"])
             if gadget:
                 rr = ctx.rng("gadget-tail")
-                for op in (qi, rr.choice([{"op": "remove_bases", "space": "C", "bases": ["A"]},
-                                          {"op": "del_cells", "space": "A", "name": "f", "how": "delattr"},
-                                          {"op": "del_space", "space": "A", "how": "delattr"}]),
-                           qi, qs, {"op": "checkpoint", "extra": [qi, qs], "final": True}):
+                edit = rr.choice([{"op": "remove_bases", "space": "C", "bases": ["A"]},
+                                  {"op": "del_cells", "space": "A", "name": "f", "how": "delattr"},
+                                  {"op": "del_space", "space": "A", "how": "delattr"}])
+                # the same guards as the generator's own deletions: what the random history reaches by the path _model.A or
+                # holds as an object-valued reference is left alone (the two known findings of this property)
+                ra = run.mach.ref.space("A")
+                ok = ra is not None
+                if ok and edit["op"] == "del_space":
+                    ok = run.mach.space_editable(ra) and run.mach.deletable(ra)
+                if ok and edit["op"] == "del_cells":
+                    ca = ra.cells.get("f")
+                    ok = ca is not None and run.mach.deletable(ca)
+                if not ok:
+                    edit = {"op": "remove_bases", "space": "C", "bases": ["A"]}
+                for op in (qi, edit, qi, qs, {"op": "checkpoint", "extra": [qi, qs], "final": True}):
                     run.step(op)
         else:
             run.replay(ctx.doc["steps"])
